@@ -46,7 +46,9 @@ def k_sort(mode: int, d0: bool, d1: bool, d2: bool, p1: int, p2: int) -> str:
 
 MAL = ['none', 'non-trashinfo-file', 'empty-info', 'truncated', 'binary', 'non-utf8', 'no-path', 'no-date', 'invalid-date',
        'info-without-payload', 'payload-without-info', 'subdir-in-info', 'info-is-dir', 'no-header', 'crlf', 'dangling-info-link',
-       'unreadable-dir-entry', 'no-date-same-path', 'invalid-date-same-path', 'date-with-utc-offset', 'date-with-Z', 'date-with-fraction']
+       'unreadable-dir-entry', 'no-date-same-path', 'invalid-date-same-path', 'date-with-utc-offset', 'date-with-Z', 'date-with-fraction',
+       'editor-backup-of-a-good-info', 'stale-copy-of-a-good-info', 'temporary-file-with-a-good-stem']
+NMAL = len(MAL)
 ORDER = ['insertion', 'reverse']
 TDS = ['/v/.Trash-1000', '/h/.local/share/Trash', '/v/.Trash/1000']
 CMDS = ['list', 'restore-date', 'restore-path', 'restore-none', 'rm', 'empty-days', 'empty', 'rm-abs']
@@ -97,13 +99,20 @@ def mal_nodes(mk, td):
     if k in ('date-with-utc-offset', 'date-with-Z', 'date-with-fraction'):
         suffix = {'date-with-utc-offset': '+02:00', 'date-with-Z': 'Z', 'date-with-fraction': '.250'}[k]
         return [W.f(i + 'm.trashinfo', '[Trash Info]\nPath=w/m\nDeletionDate=2019-03-01T12:00:00%s\n' % suffix, 0o600, 4000), W.f(f + 'm', 'M', 0o644, 4001)]
+    # files in info/ that are not .trashinfo files but share the stem of the well-formed entry 'aa' (kept by DAYS)
+    if k == 'editor-backup-of-a-good-info':
+        return [W.f(i + 'aa.trashinfo~', K.info_text('w/old-aa', '2000-01-01T00:00:00'), 0o600, 4000)]
+    if k == 'stale-copy-of-a-good-info':
+        return [W.f(i + 'aa.bak', K.info_text('w/old-aa', '2000-01-01T00:00:00'), 0o600, 4000)]
+    if k == 'temporary-file-with-a-good-stem':
+        return [W.f(i + 'aa.tmp', '', 0o600, 4000), W.f(i + 'zz.trashinfo.swp', 'x', 0o600, 4002)]
     if k == 'unreadable-dir-entry':
         return [W.l(i + 'loop.trashinfo', 'loop.trashinfo', 4000)]
     raise ValueError(k)
 
 
 # the malformed neighbour's own identity, to restrict outputs/effects to the well-formed ones
-MAL_MARKS = ('m.trashinfo', '/files/m', 'w/m', 'README.txt', '/info/sub', 'loop.trashinfo', '/m\n', '/m ', "/m'")
+MAL_MARKS = ('aa.trashinfo~', 'aa.bak', 'aa.tmp', 'zz.trashinfo.swp', 'm.trashinfo', '/files/m', 'w/m', 'README.txt', '/info/sub', 'loop.trashinfo', '/m\n', '/m ', "/m'")
 
 
 def good_nodes(td):
@@ -193,17 +202,18 @@ def _case(mk, order, tdi, cmd):
 def w_main(mk: int, order: int, tdi: int, cmd: int) -> str:
     """
     pre: PARTITION is None or cmd == PARTITION
-    pre: 0 <= mk < 22 and 0 <= order < 2 and 0 <= tdi < 3 and 0 <= cmd < 8
+    pre: 0 <= mk < NMAL and 0 <= order < 2 and 0 <= tdi < 3 and 0 <= cmd < 8
     post: _ == ''
     """
-    return _case(rt.sel(mk, 22), rt.sel(order, 2), rt.sel(tdi, 3), rt.sel(cmd, 8))
+    return _case(rt.sel(mk, NMAL), rt.sel(order, 2), rt.sel(tdi, 3), rt.sel(cmd, 8))
 
 
 def obligations(tier):
-    return [
+    from harness import kpair
+    return kpair.obligations(tier) + [
         CH('K_sort_with_undated_entries', MOD, 'k_sort', timeout=120, engine='K', regime='traced',
            encodes=['trashcli.restore.sort_method.sort_files', 'sorter_for'], bounds='3 entries, symbolic presence of each date, symbolic sharing of original paths, 3 sort modes'),
         CH('W_neighbour_x_order_x_dir_x_cmd', MOD, 'w_main', timeout=900, partitions=list(range(8)), engine='W', regime='selector',
            encodes=K.LIST_FUNCS + K.RESTORE_FUNCS + K.RM_FUNCS + K.EMPTY_FUNCS, stubs=K.STUBS,
-           bounds='22 neighbours x 2 directory orders x 3 trash dirs x 8 command/argument combinations'),
+           bounds='25 neighbours x 2 directory orders x 3 trash dirs x 8 command/argument combinations'),
     ]
